@@ -298,6 +298,11 @@ class Graph:
         for k, why in NO_PANIC_REVIEWED.items():
             if c == k or (t.get('callee') == k):
                 return ('reviewed-safe', why)
+        # bitwise and / or / xor / not on the primitive integer types (std's by-reference forwarding impls `<&u8 as BitAnd<u8>>` are
+        # #[track_caller] wholesale, as are those of the arithmetic operators they share a macro with): no input makes them panic
+        m = re.match(r"<&?(?:'\w+ )?(u8|u16|u32|u64|u128|usize|i8|i16|i32|i64|i128|isize|bool) as core::ops::bit::(BitAnd|BitOr|BitXor)<&?(?:'\w+ )?\1>>::(bitand|bitor|bitxor)$", c or '')
+        if m or re.match(r"<&?(?:'\w+ )?(u8|u16|u32|u64|u128|usize|i8|i16|i32|i64|i128|isize|bool) as core::ops::bit::Not>::not$", c or ''):
+            return ('reviewed-safe', 'bitwise operator on a primitive integer: cannot panic')
         for k, why in MAY_PANIC_EXTRA.items():
             if c and c.endswith(k):
                 return ('may-panic', why)
